@@ -13,7 +13,9 @@ Upto == IF R.upto = 0 THEN Len(R.evs) ELSE R.upto
 \* upto = 99999: a resource whose history ran while other resources of the pattern were changed too: only the
 \* end is observed - what get serves, before and after reopening, is the fold of the resource's own events
 ConcurrentOK == LET s == Served(LFold(Missing, R.def, R.evs, 1), R.def)
-                IN SameRes(R.last, s) /\ SameRes(R.reopened, s)
+                IN /\ SameRes(R.last, s) /\ SameRes(R.reopened, s)
+                   \* gets made while the other resources of the pattern were read too
+                   /\ \A k \in 1..Len(R.reads) : SameRes(R.reads[k], s)
 HistoryOK == IF R.upto = 99999 THEN ConcurrentOK ELSE
              /\ LFirstBad(Missing, R.def, SubSeq(R.evs, 1, Upto), 1) = 0
              /\ (R.upto = 0 => SameRes(R.reopened, R.last))     \* the same after close and reopen
